@@ -3,20 +3,37 @@ package main
 import (
 	"google.golang.org/protobuf/encoding/prototext"
 	"google.golang.org/protobuf/proto"
+	"google.golang.org/protobuf/reflect/protoregistry"
 )
 
 // textCodec is the harness's third codec ("text", prototext), registered with
 // vanguard.WithCodec so that conversions other than proto<->json occur.
-type textCodec struct{}
+type textCodec struct {
+	// the service's type resolver as vanguard hands it to the codec factory (nil: the harness's own encoder)
+	res interface {
+		protoregistry.MessageTypeResolver
+		protoregistry.ExtensionTypeResolver
+	}
+}
+
+func (t textCodec) resolver() interface {
+	protoregistry.MessageTypeResolver
+	protoregistry.ExtensionTypeResolver
+} {
+	if t.res != nil {
+		return t.res
+	}
+	return harnessTypes{}
+}
 
 func (textCodec) Name() string { return "text" }
 
-func (textCodec) MarshalAppend(base []byte, msg proto.Message) ([]byte, error) {
-	return prototext.MarshalOptions{}.MarshalAppend(base, msg)
+func (t textCodec) MarshalAppend(base []byte, msg proto.Message) ([]byte, error) {
+	return prototext.MarshalOptions{Resolver: t.resolver()}.MarshalAppend(base, msg)
 }
 
-func (textCodec) Unmarshal(data []byte, msg proto.Message) error {
-	return prototext.Unmarshal(data, msg)
+func (t textCodec) Unmarshal(data []byte, msg proto.Message) error {
+	return prototext.UnmarshalOptions{Resolver: t.resolver()}.Unmarshal(data, msg)
 }
 
 func (t textCodec) mustMarshal(msg proto.Message) []byte {
